@@ -130,6 +130,60 @@ theorem isHermitianIO_sound (I : Interp A)
           rw [length_normalOrderedTwoBody, length_normalOrderedTwoBody]
         · simp [h0, h1, h2] at hx
 
+theorem getD_default_of_le {α : Type} (l : List α) (i : Nat) (d : α) (h : l.length ≤ i) : l.getD i d = d := by
+  simp [List.getD, h]
+
+/-- the decidable test evaluated by the driver implies the exact-regime hypothesis -/
+theorem hexact_of_ioExactB (tol : Rat) (n : Nat) (c : GQ) (one two : List GQ) (hlen : one.length = n * n)
+    (h : Model.C02.ioExactB tol n c one two = true) :
+    ∀ k i,
+      (Spec.C02.entry (Model.C02.ioNormalTensors n c one two) k i -
+        Spec.C02.entry (Model.C02.ioNormalTensors n c.conj (Model.C02.hcOneBody n one) (Model.C02.hcTwoBody n two)) k i).normSq
+          < tol * tol →
+      Spec.C02.entry (Model.C02.ioNormalTensors n c one two) k i =
+        Spec.C02.entry (Model.C02.ioNormalTensors n c.conj (Model.C02.hcOneBody n one) (Model.C02.hcTwoBody n two)) k i := by
+  intro k i hlt
+  unfold Model.C02.ioExactB at h
+  simp only [List.all_eq_true] at h
+  have hn2 : n * n ≤ n * n * n * n := by
+    rcases Nat.eq_zero_or_pos n with h0 | h0
+    · subst h0; simp
+    · have : 1 ≤ n * n := Nat.mul_pos h0 h0
+      calc n * n = n * n * 1 := by ring
+        _ ≤ n * n * (n * n) := Nat.mul_le_mul_left _ this
+        _ = n * n * n * n := by ring
+  by_cases hk : k = [] ∨ k = [1, 0] ∨ k = [1, 1, 0, 0]
+  · have hkm : k ∈ [([] : List Nat), [1, 0], [1, 1, 0, 0]] := by
+      rcases hk with rfl | rfl | rfl <;> simp
+    by_cases hi : i < n * n * n * n + 1
+    · have := h k hkm i (List.mem_range.2 hi)
+      unfold Spec.C02.entry at hlt ⊢
+      simp only [Bool.or_eq_true, Bool.not_eq_true', decide_eq_false_iff_not, decide_eq_true_eq] at this
+      rcases this with h1 | h1
+      · exact absurd hlt h1
+      · exact h1
+    · -- beyond every tensor: both entries are the default 0
+      unfold Spec.C02.entry
+      have hi' : n * n * n * n + 1 ≤ i := by omega
+      rcases hk with rfl | rfl | rfl
+      · simp [Model.C02.ioNormalTensors, Dict.get?, List.getD]
+        have : ¬ i = 0 := by omega
+        cases i with
+        | zero => omega
+        | succ j => simp
+      · simp only [Model.C02.ioNormalTensors, Dict.get?]
+        simp
+        rw [List.getElem?_eq_none (by rw [hlen]; omega), List.getElem?_eq_none (by rw [length_hcOneBody]; omega)]
+      · simp only [Model.C02.ioNormalTensors, Dict.get?]
+        simp
+        rw [List.getElem?_eq_none (by rw [length_normalOrderedTwoBody]; omega),
+          List.getElem?_eq_none (by rw [length_normalOrderedTwoBody]; omega)]
+  · unfold Spec.C02.entry
+    have h0 : ¬ ([] : List Nat) = k := fun e => hk (Or.inl e.symm)
+    have h1 : ¬ ([1, 0] : List Nat) = k := fun e => hk (Or.inr (Or.inl e.symm))
+    have h2 : ¬ ([1, 1, 0, 0] : List Nat) = k := fun e => hk (Or.inr (Or.inr e.symm))
+    simp [Model.C02.ioNormalTensors, Dict.get?, h0, h1, h2]
+
 end C03
 end Proofs
 end OFV
